@@ -152,10 +152,13 @@ def run_search(ctx, sc, processes, label):
         kwargs["max_timesteps"] = sc["max_ts"]
     old = B.Pool
     B.Pool = make_pool(sc["pool"], stats)
+    before = [(k, repr(v)) for k, v in (params._parameters if isinstance(params, B.ParameterList) else params).items()]
     try:
         st, val = ctx.call(B.grid_search, W.SearchModel, params, W.score_fn, **kwargs)
     finally:
         B.Pool = old
+    after = [(k, repr(v)) for k, v in (params._parameters if isinstance(params, B.ParameterList) else params).items()]
+    ctx.check(after == before, "caller-parameters-modified", f"grid_search changed the caller's parameters: {after} was {before}")
     comp = stats["batches"][0]["completion"] if stats.get("batches") else None
     ctx.event(label, processes, comp, st if st == "ok" else type(val).__name__)
     if st != "ok":
@@ -270,8 +273,20 @@ def _real_one(sc):
         W.reset(cfg)
         v1 = B.grid_search(W.SearchModel, dict(raw), W.score_fn, processes=1, **kw)
         W.reset(cfg)
-        vp = B.grid_search(W.SearchModel, dict(raw), W.score_fn, processes=max(2, min(8, sc["processes"])), **kw)
+        procs = max(2, min(8, sc["processes"]))
+        vp = B.grid_search(W.SearchModel, dict(raw), W.score_fn, processes=procs, **kw)
         ctx.check(v1[0] == vp[0] and v1[1] == vp[1], "real-pool:serial-vs-parallel", "outcomes differ")
+        # the program's state changes (another score table) and the search is repeated with the same process count:
+        # workers must see the state of THIS call, not of an earlier one
+        table2 = {s: [(v if isinstance(v, list) else v + 1000) if not isinstance(v, list) else [v[0] + 8000, v[1]] for v in row]
+                  for s, row in table.items()}
+        cfg2 = dict(cfg, scores=table2)
+        W.reset(cfg2)
+        v1b = B.grid_search(W.SearchModel, dict(raw), W.score_fn, processes=1, **kw)
+        W.reset(cfg2)
+        vpb = B.grid_search(W.SearchModel, dict(raw), W.score_fn, processes=procs, **kw)
+        ctx.check(v1b[0] == vpb[0] and v1b[1] == vpb[1], "real-pool:stale-worker-state",
+                  "a second parallel search in the same process used the program state of an earlier call")
     except Violation as v:
         return {"kind": v.kind, "detail": v.detail, "scenario": sc}
     return None
